@@ -420,4 +420,6 @@ package agent
 // index of the walk ever points past the list
 //@   loop "for i := range a.SocksSvr" #2
 //@     invariant same: sameslice(a.SocksSvr, old(a.SocksSvr))
+// the agent is told to close the very socket ids of the proxy's clients that were closed here
+//@   guard-call closeid: "AddJobToQueue" (inscope("client") && inscope("i") && job.Command == COMMAND_SOCKET && len(job.Data) == 2) ==> (typeis(job.Data[1], int32) && unboxed(job.Data[1], int32) == a.SocksSvr[i].Server.Clients[client] && lastarg(SocksClientClose, 1) == a.SocksSvr[i].Server.Clients[client])
 //@   guard-store rid: "+Job\.RequestID$" storedvalue() == lastresult(Uint32) || (inscope("RequestID") && storedvalue() == uint32(RequestID) && (id32(job.TaskID) ==> RequestID == uf_hexval(job.TaskID)))
